@@ -401,15 +401,17 @@ def main(tier, seed, replay=None):
                 drv_err = "harness/c13drv/wrappers.go has no driver for " + ", ".join(sorted(want - have))
         iters, rounds = (30, 1) if tier == "quick" else (60, 1 + seed % 3 + 2)
         todo = list(listed)
+        only_pair = None
         if replay:
             m = re.search(r"^# replay-cmd: .*-subject (\S+)(?: .*?-pair (\S+))?", open(replay).read(), re.M)
-            todo = [m.group(1)] if m else todo
+            if m:
+                todo, only_pair, iters, rounds = [m.group(1)], m.group(2), 60, 10
         if not drv_err:
             with concurrent.futures.ThreadPoolExecutor(max_workers=min(8, os.cpu_count() or 4)) as ex:
                 # subjects whose methods take a second instance get more rounds: the interesting
                 # interleaving (Equal reading the other set while it is being reordered) exists once per fresh instance
                 mirror = {s["name"] for s in SUBJECTS if s.get("mirror")}
-                futs = [ex.submit(run_subject, dbin, n, iters, rounds * (4 if n in mirror else 1)) for n in sorted(todo)]
+                futs = [ex.submit(run_subject, dbin, n, iters, rounds * (4 if n in mirror else 1), only_pair) for n in sorted(todo)]
                 results = [f.result() for f in futs]
     if drv_err:
         proof_broken = (proof_broken + " | " if proof_broken else "") + drv_err
